@@ -143,9 +143,11 @@ def bumpReply (l : List (Nat × Nat)) (ident : Nat) : List (Nat × Nat) :=
 def replyCount (l : List (Nat × Nat)) (ident : Nat) : Option Nat := (l.find? (fun e => e.1 == ident)).map (·.2)
 
 /-- `NIC.receive_frame` acceptance test (after the TTL test): a broadcast needs the NIC's own or its network's
-broadcast IP address, anything else is accepted by destination MAC alone. -/
-def hostAccepts (ifc : Iface) (f : Frame) : Bool :=
-  if f.dstMac == bcastMac then (f.dstIp == ifc.ip || f.dstIp == ifc.bcastAddr) else f.dstMac == ifc.mac
+broadcast IP address; a unicast frame needs the NIC's MAC address and (repaired code) an IP address of this host
+(`Node.ip_is_network_interface`). -/
+def hostAccepts (nd : Node) (ifc : Iface) (f : Frame) : Bool :=
+  if f.dstMac == bcastMac then (f.dstIp == ifc.ip || f.dstIp == ifc.bcastAddr)
+  else f.dstMac == ifc.mac && (ifaceWithIp nd.ifaces f.dstIp).isSome
 
 /-- `RouterInterface.receive_frame` acceptance test. -/
 def routerAccepts (ifc : Iface) (f : Frame) : Bool := f.dstMac == ifc.mac || f.dstMac == bcastMac
@@ -202,6 +204,13 @@ def routerArpNext (nd : Node) (ip : Ip) (re gw : Bool) (subnetFirst : Bool) : Ar
     | some nh => if !gw then .go nh true true else .stop
     | none => .stop
 
+/-- successor of a cache miss for the node's kind. -/
+def arpNext (nd : Node) (ip : Ip) (re gw : Bool) (subnetFirst : Bool) : ArpNext :=
+  match nd.kind with
+  | .host => hostArpNext nd ip re gw
+  | .router => routerArpNext nd ip re gw subnetFirst
+  | .switch => .stop
+
 /-! ### the interpreter -/
 
 mutual
@@ -233,7 +242,7 @@ def ifaceRecv (fuel : Nat) (st : St) (n i : Nat) (f : Frame) : St × Frame :=
       let f := f.dec
       if f.ttl < 1 then (st, f) else
       match nd.kind with
-      | .host => if hostAccepts ifc f then hostRecv fuel st n i f else (st, f)
+      | .host => if hostAccepts nd ifc f then hostRecv fuel st n i f else (st, f)
       | .router => if routerAccepts ifc f then routerRecv fuel st n i f else (st, f)
       | .switch => switchRecv fuel st n i f
     | _, _ => (st, f)
@@ -408,11 +417,7 @@ def arpMac (fuel : Nat) (st : St) (n : Nat) (ip : Ip) (re gw : Bool) : St × Opt
       match nd.arpGet ip with
       | some e => (st, some e.mac)
       | none =>
-        let next := match nd.kind with
-          | .host => hostArpNext nd ip re gw
-          | .router => routerArpNext nd ip re gw true
-          | .switch => .stop
-        match next with
+        match arpNext nd ip re gw true with
         | .stop => (st, none)
         | .raised => (st.emit (.raised n), none)
         | .go t re' gw' => arpMac fuel (sendArpReq fuel st n t) n t re' gw'
@@ -431,11 +436,7 @@ def arpIfc (fuel : Nat) (st : St) (n : Nat) (ip : Ip) (re gw : Bool) : St × Opt
         match (if nd.kind == .router then firstIn nd.ifaces ip 0 else none) with
         | some i => (st, some i)
         | none =>
-          let next := match nd.kind with
-            | .host => hostArpNext nd ip re gw
-            | .router => routerArpNext nd ip re gw false
-            | .switch => .stop
-          match next with
+          match arpNext nd ip re gw false with
           | .stop => (st, none)
           | .raised => (st.emit (.raised n), none)
           | .go t re' gw' => arpIfc fuel (sendArpReq fuel st n t) n t re' gw'
